@@ -95,6 +95,31 @@ def env_table(ctx, rule):
                 fe.loc(fe.line), detail=str(kinds))
 
 
+def origin_table(ctx, rule):
+    """from_origin's (applies_in, applies_to, path) rows (shared with C12: --no-vcs-ignore / --no-project-ignore act on these tags)"""
+    fo = body_of(ctx, rule, D + "::from_origin")
+    root = thir.root(fo)
+    # ---- R14.4 tables (all discover_file calls in from_origin)
+    rows = []
+    for c, n in thir.calls_in(root):
+        if strip_generics(c).endswith("discover::discover_file"):
+            a = n["a"]
+            rows.append((pathx.desc(a[2]), pathx.desc(a[3]), pathx.desc(a[4])))
+    want_rows = {
+        ("Some{0: dir}", "None", "Path::join(dir, '.ignore')"), ("Some{0: dir}", "Some{0: Git}", "Path::join(dir, '.gitignore')"),
+        ("Some{0: dir}", "Some{0: Mercurial}", "Path::join(dir, '.hgignore')"),
+        ("Some{0: origin}", "Some{0: Bazaar}", "Path::join(origin, '.bzrignore')"), ("Some{0: origin}", "Some{0: Darcs}", "Path::join(origin, '_darcs/prefs/boring')"),
+        ("Some{0: origin}", "Some{0: Fossil}", "Path::join(origin, '.fossil-settings/ignore-glob')"),
+        ("Some{0: origin}", "Some{0: Git}", "Path::join(origin, '.git/info/exclude')"),
+    }
+    import re as _re
+    norm = {(_re.sub(r"Clone::clone\(([^()]*)\)", r"\1", a), b, c_) for a, b, c_ in rows}
+    for r in sorted(want_rows):
+        ctx.require(r in norm, rule, "row:" + r[2], "%s applies in %s for %s" % (r[2], r[0], r[1]), fo.loc(fo.line),
+                    fail="the discovery table no longer has the row %s (found %s)" % (r, sorted(x for x in norm if x[2] == r[2])))
+
+
+
 def run(ctx):
     ctx.level = "other"
     facts = ctx.facts
@@ -272,6 +297,23 @@ def run(ctx):
         _c03b.builders_stay(ctx, "R14.3")
     except Skip:
         pass
+    # the CLI hands its watch list to the discovery unfiltered (an empty list means `no restriction`, so nothing may thin it out)
+    try:
+        from . import c12 as _c12w
+        igw = _c12w.body_of(ctx, "R14.2", "watchexec_cli::dirs::ignores")
+        na = [[pathx.desc(a) for a in nd["a"]] for c, nd in thir.calls_in(thir.root(igw)) if strip_generics(c).endswith("IgnoreFilesFromOriginArgs::new_unchecked")]
+        ctx.require(na == [["origin", "Iterator::map(slice::iter(args.filtering.paths), From::from)", "ignore_files"]], "R14.2", "cli-watch-list-unfiltered",
+                    "dirs::ignores passes (origin, every watched path, the explicit ignore files) to from_origin", igw.loc(igw.line), detail=str(na)[:300],
+                    fail="the CLI no longer passes the complete watch list to the ignore-file discovery (%s): with the list thinned out (or emptied) directories unrelated to the "
+                         "watches are searched, or a watched file's directory is skipped" % str(na)[:200])
+    except Skip:
+        pass
+    # the C03 normalisation rule: the origin / applies_in spelling must not matter for pruning
+    try:
+        from . import c03 as _c03n
+        _c03n.simplify_rule(ctx, "R14.5")
+    except Skip:
+        pass
     # check_dir's own verdict table (shared with C03 R03.4): pruning is only as good as what check_dir answers
     from . import c03 as _c03
     _c03.consumers(ctx, "R14.2", only="check_dir")
@@ -315,24 +357,7 @@ def run(ctx):
             ctx.floor("R14.3", "found-file obligations", nfound, 3)
             ctx.require(names == {"Path::join(dir, '.ignore')", "Path::join(dir, '.gitignore')", "Path::join(dir, '.hgignore')"}, "R14.4", "per-dir-names",
                         "each visited directory is probed for .ignore, .gitignore and .hgignore", fo.loc(fo.line), detail=str(sorted(names)))
-        # ---- R14.4 tables (all discover_file calls in from_origin)
-        rows = []
-        for c, n in thir.calls_in(root):
-            if strip_generics(c).endswith("discover::discover_file"):
-                a = n["a"]
-                rows.append((pathx.desc(a[2]), pathx.desc(a[3]), pathx.desc(a[4])))
-        want_rows = {
-            ("Some{0: dir}", "None", "Path::join(dir, '.ignore')"), ("Some{0: dir}", "Some{0: Git}", "Path::join(dir, '.gitignore')"),
-            ("Some{0: dir}", "Some{0: Mercurial}", "Path::join(dir, '.hgignore')"),
-            ("Some{0: origin}", "Some{0: Bazaar}", "Path::join(origin, '.bzrignore')"), ("Some{0: origin}", "Some{0: Darcs}", "Path::join(origin, '_darcs/prefs/boring')"),
-            ("Some{0: origin}", "Some{0: Fossil}", "Path::join(origin, '.fossil-settings/ignore-glob')"),
-            ("Some{0: origin}", "Some{0: Git}", "Path::join(origin, '.git/info/exclude')"),
-        }
-        import re as _re
-        norm = {(_re.sub(r"Clone::clone\(([^()]*)\)", r"\1", a), b, c_) for a, b, c_ in rows}
-        for r in sorted(want_rows):
-            ctx.require(r in norm, "R14.4", "row:" + r[2], "%s applies in %s for %s" % (r[2], r[0], r[1]), fo.loc(fo.line),
-                        fail="the discovery table no longer has the row %s (found %s)" % (r, sorted(x for x in norm if x[2] == r[2])))
+        origin_table(ctx, "R14.4")
         env_table(ctx, "R14.4")
         # VCS metadata dirs vs project-origins
         dn = body_of(ctx, "R14.4", D + "::DirTourist::new")
